@@ -255,6 +255,16 @@ class Sim:
         n = self.write_counts["pausekey:" + tr.label]
         return self.decide(f"pause:{tr.label}:{n}", self.cfg["p_pause"])
 
+    def decide_slow_close(self, tr):
+        p = self.cfg.get("p_slow_close", 0.0)
+        if not p:
+            return 0.0
+        self.write_counts["closekey:" + tr.label] += 1
+        n = self.write_counts["closekey:" + tr.label]
+        if self.decide(f"slowclose:{tr.label}:{n}", p):
+            return self.cfg.get("slow_close_s", 1.3)
+        return 0.0
+
     def decide_refuse_connect(self, label, n):
         return self.decide(f"refuse:{label}:{n}", self.cfg["p_refuse"])
 
